@@ -111,6 +111,8 @@ def gen_cfg(rng: random.Random):
         cfg["rc_at_src"] = {"default_transmission_mode": "unack" if mode == "ack" else "ack", "closure_requested": not closure}
     if rng.random() < 0.05:
         cfg["metadata_only"] = True
+    if rng.random() < 0.1:
+        cfg.update({"src_name": "übergröße 文件.bin", "dst_name": "зона 51 ☃.dat"})  # names with non-ASCII characters and blanks (multi-byte in UTF-8)
     if rng.random() < 0.3:
         cfg["scribble_pdus"] = True  # the user edits (the header of) every PDU object after it has taken its bytes
     return cfg, eff
